@@ -272,6 +272,14 @@ func doOp(op Op, run *core.Run) {
 		nx, ny := c.ScalarMult(qx, qy, new(big.Int).Sub(N, big.NewInt(1)).Bytes())
 		zx, zy := c.Add(qx, qy, nx, ny)
 		run.Event("p384", "related", op.N%7, (op.N/7)%6, (op.N/42)%6, bigs(qx, qy), bigs(rx, ry), bigs(ax, ay), bigs(zx, zy))
+		// scalars that are multiples of the order, or just beside one, with and without leading
+		// zero bytes: the results are the identity, Q, -Q whatever the build
+		for _, e := range [][]byte{N.Bytes(), new(big.Int).Lsh(N, 1).Bytes(), new(big.Int).Mul(N, big.NewInt(3)).Bytes(), append([]byte{0, 0}, N.Bytes()...),
+			new(big.Int).Add(N, big.NewInt(1)).Bytes(), {}, {0}, make([]byte, 48), make([]byte, 60)} {
+			ex, ey := c.ScalarMult(qx, qy, e)
+			bx, by := c.ScalarBaseMult(e)
+			run.Event("p384", "order-multiples", len(e), bigs(ex, ey), bigs(bx, by))
+		}
 		// other representatives of the coordinates: x-p, x+p, x+2p (and the same for y). A
 		// coordinate is an integer in [0, p): whatever the build, only that one is on the curve.
 		pp := c.Params().P
